@@ -162,10 +162,25 @@ def run(ctx):
             if not (v[0] == 'agg' and v[2] == 'Ok'):
                 continue
             val = fold(v[3][0])
+            tail_eq = None
             if not (val[0] == 'const' and val[1] == 1):
-                continue
+                # `Ok(a == X && b == Y)`: the value returned is the last comparison itself; it is true exactly when that comparison holds
+                d = strip(resolve(st, v[3][0]))
+                if d[0] == 'call' and re.search(r'PartialEq(<.*>)?>?::eq$', d[1]) and len(d[3]) == 2:
+                    a_, b_ = d[3]
+                    va, vb = variant_of(a_), variant_of(b_)
+                    fld = None
+                    for n in walk(a_ if vb else b_):
+                        if n[0] == 'field':
+                            fld = n[2]
+                            break
+                    tail_eq = (fld, vb or va)
+                else:
+                    continue
             n_true += 1
             eqs = {(f, var) for f, var, equal in cmp_events(st, P) if equal}
+            if tail_eq:
+                eqs.add(tail_eq)
             need = {tuple(x) for x in req['equal']}
             ctx.check(need <= eqs, 'R12.1b', 'reader:%s' % rname,
                       '%s returns Ok(true) only after establishing %s' % (rname, sorted(need)), body.where(),
